@@ -201,6 +201,17 @@ func (c *Channel) updateGeneric(
 	// if anything goes wrong from now on, we discard the update.
 	defer func() { c.checkUpdateError(ctx, err) }()
 
+	// If we finalize a sub-channel as its second participant, it is us who
+	// awaits the settlement update at the parent channel.
+	if c.IsSubChannel() && up.State.IsFinal && c.Idx() == ProposeeIdx {
+		c.Parent().registerSubChannelSettlement(c.ID(), up.State.Balances)
+		defer func() {
+			if err != nil {
+				c.Parent().subChannelWithdrawals.Release(c.ID())
+			}
+		}()
+	}
+
 	sig, err := c.machine.Sig(ctx)
 	if err != nil {
 		return errors.WithMessage(err, "signing update")
@@ -357,7 +368,10 @@ func (c *Channel) acceptUpdate(
 	}
 
 	// If subchannel is final, register settlement update at parent channel.
-	if c.IsSubChannel() && req.Base().State.IsFinal {
+	// Only the second participant of the sub-channel awaits that update (see
+	// withdrawSubChannelIntoParent); at the first one nobody would ever serve
+	// the interceptor and a matching update would block the parent forever.
+	if c.IsSubChannel() && req.Base().State.IsFinal && c.Idx() == ProposeeIdx {
 		c.Parent().registerSubChannelSettlement(c.ID(), req.Base().State.Balances)
 	}
 
